@@ -1,15 +1,15 @@
 #!/usr/bin/env python3
 """Re-run every seeded change under /verif/seeded against its property's quick check (applied to /repo and reverted)
-and refresh meta.json ("detected", "check_exit").  usage: tools/rerun_seeds.py [name-prefix]"""
+and refresh meta.json ("detected", "check_exit").  usage: tools/rerun_seeds.py [name-prefix | Cxx]"""
 import glob, json, os, subprocess, sys
 pref = sys.argv[1] if len(sys.argv) > 1 else ""
 rows = []
 for d in sorted(glob.glob("/verif/seeded/*/")):
     name = os.path.basename(d.rstrip("/"))
-    if not name.startswith(pref):
-        continue
     m = json.load(open(d + "meta.json"))
     pid = m["property"]
+    if not (name.startswith(pref) or pid == pref):
+        continue
     p = subprocess.run(["/verif/tools/try_patch.sh", d + "patch.diff", pid], capture_output=True, text=True)
     rc = p.returncode
     what = [l.strip() for l in p.stdout.splitlines() if l.strip().startswith("what:")][:1]
